@@ -618,14 +618,18 @@ def check_c15(run: Run, prog: Program) -> None:
 
     run.title = "Degenerate quadrics split into their components; conics meet in 4 common points"
     run.clause = (
-        "decides TWO necessary conditions, as polynomial identities read off the source (E19.deg): (1) Conic.from_lines and QuadricTensor.from_planes build a multiple of "
+        "decides, as polynomial identities read off the source (E19.deg, E19.comp): (1) Conic.from_lines and QuadricTensor.from_planes build a multiple of "
         "g h^T + h g^T - the only symmetric matrix whose quadric is exactly the pair g, h - so 'their components are exactly that pair' is possible at all; (2) in "
         "Conic.intersect(conic) the four coefficients handed to roots() are, coefficient by coefficient, det(s A + B) for the member s A + B of the pencil that is then "
-        "decomposed: the conic whose components are intersected is degenerate for every root. NOT decided: components() itself (square-root sign choices, the pivot, the "
-        "NotReducible test), is_degenerate, which root is taken, and that every common point is found - all value-level."
+        "decomposed: the conic whose components are intersected is degenerate for every root; (3) (E19.comp) QuadricTensor.components itself, interpreted on the matrix "
+        "g h^T + h g^T of two symbolic lines / planes for EVERY pivot the two argmax calls can select and for both signs of every square root of a perfect square "
+        "(a principal root is an absolute value), returns two coefficient vectors that are multiples of g and h. NOT decided: is_degenerate and the NotReducible test "
+        "(tolerances), which root of the cubic is taken, and that every common point of two conics is found."
     )
     n = quadforms.rule_degenerate(run, prog)
     run.floor("degenerate-quadric formulas read (found, decided or not)", n, 3)
+    nc = quadforms.rule_components(run, prog)
+    run.floor("decompositions read (found, decided or not)", nc, 2)
     run.stats["degenerate_formulas"] = n
 
 
